@@ -41,7 +41,10 @@ func (t *TargetHasher) SetTargetChangeHash(target *model.Target) error {
 		if targetDependency.OutputHash == "" {
 			return fmt.Errorf("dependency %s of %s has no output hash", targetDependency.Label, target.Label)
 		}
-		dependencyHashes = append(dependencyHashes, targetDependency.OutputHash)
+		// Key every output hash by the dependency it belongs to: the hashes are sorted
+		// before they are combined, so without the label two dependencies swapping
+		// their outputs would go unnoticed.
+		dependencyHashes = append(dependencyHashes, targetDependency.Label.String()+"="+targetDependency.OutputHash)
 	}
 
 	changeHash, err := GetTargetChangeHash(*target, dependencyHashes)
